@@ -379,6 +379,8 @@ class LogicalType(type):  # noqa
                         e = exc.ParseError(value=value, type=con, origin_exc=e)
                     context.handle_error(e)
                     break
+            # when errors are collected handle_error does not raise: the rejection must not be lost
+            context.raise_error()
             return value
 
         elif cls.combinator == "|":
